@@ -172,6 +172,7 @@ func runC01(c *Ctx) {
 	n := 1 + c.T.Weighted(6, 3, 1)
 	tw := PlanTunnels(c, TunOpts{N: n, Transports: []string{"ws", "legacy"}})
 	tw.Cfg.SmartCardAuth = c.T.Bool(1, 4)
+	tw.NTLM = c.T.Bool(1, 5) // token auth off: tunnels authenticate with NTLM at HTTP level
 	if !BootTun(c, tw, false) {
 		return
 	}
